@@ -3,7 +3,7 @@ from __future__ import annotations
 
 import ast
 
-from ..astutil import access_path, parents_map, ancestors
+from ..astutil import access_path, parents_map, ancestors, returned_name
 from ..model import AnalysisError, norm, walk_own
 from ..registry import Sym
 from ..report import RuleResult
@@ -176,8 +176,9 @@ def _check_simple_combine(ctx, res):
             res.report(f"simple_combine-writer|{f.qualname}", f.where(n), f.qualname,
                        "simple_combine written outside _initialize_aggregation: the two combine algorithms may now apply different operators")
     f = prog.func("aggregations._initialize_aggregation")
+    av = returned_name(f) or "agg"
     # the loop 'for X in agg.combine' must be the only source of appended values
-    loops = [n for n in walk_own(f.node) if isinstance(n, ast.For) and access_path(n.iter) == "agg.combine"]
+    loops = [n for n in walk_own(f.node) if isinstance(n, ast.For) and access_path(n.iter) == f"{av}.combine"]
     if len(loops) != 1:
         raise AnalysisError("_initialize_aggregation: expected exactly one loop over agg.combine deriving simple_combine")
     loop = loops[0]
@@ -225,28 +226,29 @@ def _check_simple_combine(ctx, res):
 
 
 SLOTS_REQUIRED = {
-    "agg.numpy": ("nanlen",), "agg.fill_value['numpy']": (0,), "agg.dtype['numpy']": (T.INTP,),
-    "agg.fill_value['intermediate']": (0,), "agg.dtype['intermediate']": (T.INTP,),
-    "agg.chunk": ("nanlen",), "agg.combine": ("sum",),
+    "AGG.numpy": ("nanlen",), "AGG.fill_value['numpy']": (0,), "AGG.dtype['numpy']": (T.INTP,),
+    "AGG.fill_value['intermediate']": (0,), "AGG.dtype['intermediate']": (T.INTP,),
+    "AGG.chunk": ("nanlen",), "AGG.combine": ("sum",),
 }
 
 
 def rule_parallel(ctx) -> RuleResult:
     res = RuleResult("R-PARALLEL", "the min_count counter extends every parallel tuple with a table row", min_instances=7)
     f = ctx.prog.func("aggregations._initialize_aggregation")
+    av = returned_name(f) or "agg"
     pm = parents_map(f.node)
     ev = ctx.registry.ev
     found: dict[str, list] = {}
     for n in walk_own(f.node):
         if isinstance(n, ast.AugAssign) and isinstance(n.op, ast.Add):
             p = access_path(n.target)
-            if p and p.startswith("agg."):
-                found.setdefault(p, []).append(n)
-    if "agg.chunk" not in found:
+            if p and p.startswith(av + "."):
+                found.setdefault("AGG" + p[len(av):], []).append(n)
+    if "AGG.chunk" not in found:
         raise AnalysisError("_initialize_aggregation: no 'agg.chunk += ...' found (the counter wiring vanished)")
     # the branch: outermost If ancestor of the agg.chunk augmentation whose test mentions min_count
     branch = None
-    for anc in ancestors(found["agg.chunk"][0], pm):
+    for anc in ancestors(found["AGG.chunk"][0], pm):
         if isinstance(anc, ast.If) and "min_count" in norm(anc.test):
             branch = anc
     if branch is None:
@@ -255,23 +257,23 @@ def rule_parallel(ctx) -> RuleResult:
         nodes = [n for n in found.get(slot, []) if any(a is branch for a in ancestors(n, pm))]
         if not nodes:
             res.report(f"parallel|{slot}|missing", f.where(branch), f.qualname,
-                       f"min_count branch extends agg.chunk but not {slot}: the parallel tuples go out of step")
+                       f"min_count branch extends agg.chunk but not {slot.replace('AGG', 'agg')}: the parallel tuples go out of step")
             res.inst(f"{slot}: MISSING")
             continue
         for n in nodes:
             val = ev.ev(n.value)
-            res.inst(f"{slot} += {val!r}", f"parallel|{slot}")
+            res.inst(f"{slot.replace('AGG', 'agg')} += {val!r}", f"parallel|{slot}")
             if val != want:
                 res.report(f"parallel|{slot}|value", f.where(n), f.qualname,
-                           f"{slot} += {val!r}; the validity counter is the table row (nanlen, sum, fill 0, np.intp): expected {want!r}")
+                           f"{slot.replace('AGG', 'agg')} += {val!r}; the validity counter is the table row (nanlen, sum, fill 0, np.intp): expected {want!r}")
         if len(nodes) > 1:
-            res.report(f"parallel|{slot}|twice", f.where(nodes[1]), f.qualname, f"{slot} extended {len(nodes)} times in the min_count branch")
+            res.report(f"parallel|{slot}|twice", f.where(nodes[1]), f.qualname, f"{slot.replace('AGG', 'agg')} extended {len(nodes)} times in the min_count branch")
     # chunk/combine must be guarded by chunk != (None,) (blockwise-only blueprints have no decomposition)
-    for slot in ("agg.chunk", "agg.combine"):
+    for slot in ("AGG.chunk", "AGG.combine"):
         for n in found.get(slot, []):
-            guarded = any(isinstance(a, ast.If) and "agg.chunk" in norm(a.test) and "None" in norm(a.test) for a in ancestors(n, pm))
+            guarded = any(isinstance(a, ast.If) and f"{av}.chunk" in norm(a.test) and "None" in norm(a.test) for a in ancestors(n, pm))
             if not guarded:
-                res.report(f"parallel|{slot}|unguarded", f.where(n), f.qualname, f"{slot} extended also for blueprints without decomposition (chunk == (None,))")
+                res.report(f"parallel|{slot}|unguarded", f.where(n), f.qualname, f"{slot.replace('AGG', 'agg')} extended also for blueprints without decomposition (chunk == (None,))")
     # any other augmented slot in the branch must be one we know
     for slot, nodes in found.items():
         if slot not in SLOTS_REQUIRED and any(any(a is branch for a in ancestors(n, pm)) for n in nodes):
